@@ -716,6 +716,12 @@ impl SimStream {
         SimStream { node }
     }
 }
+/// `StreamGroup<S>: Default` is derived and therefore asks for `S: Default`; no member is ever created through it.
+impl Default for SimStream {
+    fn default() -> Self {
+        unreachable!("a group constructor must not create members")
+    }
+}
 impl Drop for SimStream {
     fn drop(&mut self) {
         leaf_dropped(self.node);
